@@ -183,3 +183,25 @@ Example C20_ex_history :
   spec_names_level (ex_form [x45; x52; x52; x4f; x52]) = Some 2 /\
   spec_final 4 rs = 0.
 Proof. vm_compute. repeat split; reflexivity. Qed.
+
+(* the oracle is not trivially true: on the case (1 2 #c4b06e666f ..) -- U+0130 "nfo" into a
+   target holding 2 -- it accepts the model's observation (rejected, 2 kept) and rejects the
+   observation the code before the fix produced (accepted as info by all eleven entry points) *)
+Example C20_ex_oracle :
+  let t := [xc4; xb0; x6e; x66; x6f] in
+  let i := SL [SZ 1; SZ 2; SB t; SL [SB t]; SL [SB t]] in
+  let acc := SL [SZ 0; SZ 1] in
+  wf i = true /\
+  model i = SL [SL [SZ 2; SZ 0]; SL [SZ 2; SZ 0]; SL [SZ 0; SZ 0]; SL [SZ 2; SZ 0]; SL [SZ 2; SZ 0]; SL [SZ 2; SZ 0];
+                SL [SZ 0; SZ 0]; SL [SZ 0; SZ 0]; SL [SZ 2; SZ 0]; SL [SZ 2; SZ 0]; SL [SZ 2; SZ 0]] /\
+  spec i (SL [acc; acc; acc; acc; acc; acc; acc; acc; acc; acc; acc]) = false.
+Proof. vm_compute. repeat split; reflexivity. Qed.
+
+(* ... and on a one-request history: PUT with an undecodable body against level 46 must leave 46
+   (the observation of mutation M4, level reset to info, is rejected) *)
+Example C20_ex_oracle_http :
+  let i := SL [SZ 2; SZ 46; SL [SL [SB s_put; SB []; SL []; SL [SZ 1; SL []; SZ 0]]]] in
+  model i = SL [SL [SZ 400; SZ 2; SB []; SZ 46; SZ 0]] /\
+  spec i (SL [SL [SZ 400; SZ 2; SB []; SZ 0; SZ 126]]) = false /\
+  spec i (SL [SL [SZ 405; SZ 2; SB []; SZ 46; SZ 0]]) = true.
+Proof. vm_compute. repeat split; reflexivity. Qed.
